@@ -3,9 +3,10 @@
 
    The file system as far as the writer touches it: the content of <path> ([rf_cur],
    [rf_exists]), the directory of rotated files <path>.<second> ([rf_rot]: rename onto an
-   existing name replaces it, as rename(2) does), the files an outside party renamed away
-   ([rf_moved]) or removed ([rf_gone]).  [rf_hist] is a ghost record of every rename that
-   rotate() performed, oldest first, with the byte(s) the write loop skipped at that point.
+   existing name would replace it, as rename(2) does - rotate() picks the first free name),
+   the files an outside party renamed away ([rf_moved]) or removed ([rf_gone]).  [rf_hist] is
+   a ghost record of every file that left <path>, oldest first, with the byte the write loop
+   skipped at that point.
    The wall clock is an input: one reading (second) per rotation.
    Go [int64] positions are [Z] (sizes stay far below 2^63 on the quantified inputs). *)
 From HT Require Import Common.Bytes.
@@ -13,35 +14,53 @@ Open Scope Z_scope.
 
 Definition NL : N := 10%N.
 
-(* how a rotation came about *)
+(* how a file left <path> *)
 Inductive rkind :=
-| RSplit      (* write loop found a newline in the window: wrote up to it, skipped it *)
-| RDrop       (* write loop found none: wrote nothing, skipped p[0] *)
-| ROpen.      (* OpenRotateFile found the file already full *)
+| RSplit      (* write loop: a newline inside the remaining window; wrote up to it, skipped it *)
+| RFresh      (* write loop: no newline inside the window and the file is not empty: rotate, keep p *)
+| RLong       (* write loop: empty file and no newline inside the window: the line alone is larger
+                 than a file; wrote it whole (up to its newline), skipped the newline *)
+| ROpen       (* OpenRotateFile found the file already full *)
+| RMoved      (* somebody else renamed it away *)
+| RGone.      (* somebody else removed it *)
 
-Record hent := mkH { h_sec : N; h_content : bytes; h_skipped : bytes; h_kind : rkind }.
+(* ghost record: one entry per file that left <path>, oldest first *)
+Record hent := mkH { h_sec : N; h_k : N; h_content : bytes; h_skipped : bytes; h_kind : rkind }.
+
+(* a rotated file is <path>.<second> (k = 0) or <path>.<second>.<k> *)
+Definition rname := (N * N)%type.
 
 Record rf := mkRF {
   rf_max : Z;
   rf_pos : Z;
   rf_exists : bool;                 (* does <path> exist *)
   rf_cur : bytes;                   (* content of <path> ([] when it does not exist) *)
-  rf_rot : list (N * bytes);        (* <path>.<second> -> content, in order of creation *)
+  rf_rot : list (rname * bytes);    (* rotated files, in order of creation *)
   rf_hist : list hent;              (* ghost *)
   rf_moved : list bytes;
   rf_gone : list bytes
 }.
 
-(* os.Rename(path, path.<s>): an existing destination is replaced *)
-Definition rot_set (s : N) (c : bytes) (d : list (N * bytes)) : list (N * bytes) :=
-  filter (fun e => negb (fst e =? s)%N) d ++ [(s, c)].
+Definition taken (s k : N) (d : list (rname * bytes)) : bool :=
+  existsb (fun e => (fst (fst e) =? s)%N && (snd (fst e) =? k)%N) d.
 
-(* rotate(): Sync, Close, Rename to path.<now>, reopen (O_CREATE, pos = 0).
+(* "name := path.ts; for i := 1; ; i++ { if Lstat(name) fails break; name = path.ts.i }":
+   the first k = 0, 1, 2, ... whose name does not exist *)
+Fixpoint first_free (fuel : nat) (s k : N) (d : list (rname * bytes)) : N :=
+  match fuel with
+  | O => k
+  | S f => if taken s k d then first_free f s (k + 1)%N d else k
+  end.
+
+Definition free_k (s : N) (d : list (rname * bytes)) : N := first_free (S (length d)) s 0%N d.
+
+(* rotate(): Sync, Close, Rename to the first free name for now, reopen (O_CREATE, pos = 0).
    [skipped]/[k] only feed the ghost history. *)
-Definition rotate (s : N) (skipped : bytes) (k : rkind) (st : rf) : rf :=
+Definition rotate (s : N) (skipped : bytes) (kd : rkind) (st : rf) : rf :=
+  let k := free_k s (rf_rot st) in
   mkRF (rf_max st) 0 true []
-       (rot_set s (rf_cur st) (rf_rot st))
-       (rf_hist st ++ [mkH s (rf_cur st) skipped k])
+       (rf_rot st ++ [((s, k), rf_cur st)])
+       (rf_hist st ++ [mkH s k (rf_cur st) skipped kd])
        (rf_moved st) (rf_gone st).
 
 (* reopen(): OpenFile(path, O_CREATE|O_WRONLY), pos = 0.  Called by Write only when Stat
@@ -76,45 +95,71 @@ Fixpoint scan_down (p : bytes) (j : nat) : nat :=
   | S j' => if (nth j p 0%N =? NL)%N then j else scan_down p j'
   end.
 
+(* bytes.IndexByte(p, '\n'): split at the FIRST newline *)
+Fixpoint split_first_nl (l : bytes) : option (bytes * bytes) :=
+  match l with
+  | [] => None
+  | x :: r =>
+      if (x =? NL)%N then Some ([], r)
+      else match split_first_nl r with
+           | Some (a, b) => Some (x :: a, b)
+           | None => None
+           end
+  end.
+
 Inductive wres :=
 | WOk (st : rf) (n : Z)      (* returned (n, nil) *)
-| WPanic                      (* slice bounds out of range *)
+| WPanic                      (* index / slice bounds out of range *)
 | WFuel.
+
+(* the window scan of one iteration: Some (p[:k], p[k+1:]) when a newline p[k] was found with
+   0 < k <= j; None when j <= 0 or the scan reached 0.  p[j] itself is in range because
+   len p > j whenever the loop condition holds; were it not, Go would panic. *)
+Inductive scan_res := SFound (a rest : bytes) | SNone | SOutOfRange.
+
+Definition window_scan (p : bytes) (j : Z) : scan_res :=
+  if j <=? 0 then SNone
+  else if zlen p <=? j then SOutOfRange         (* p[j] with j >= len p *)
+  else match firstn (S (Z.to_nat j)) p with      (* p[0..j] *)
+       | [] => SOutOfRange
+       | x0 :: w =>
+           match split_last_nl w with
+           | Some (a, b) => SFound (x0 :: a) (b ++ skipn (S (Z.to_nat j)) p)
+           | None => SNone
+           end
+       end.
 
 (* the loop "for f.pos+len(p) > f.maxSize { ... }" and the final write.
    [clk i] = wall-clock second read by the i-th rotate() of this call. *)
 Fixpoint write_loop (fuel : nat) (clk : nat -> N) (i : nat) (st : rf) (p : bytes) (written : Z) : wres :=
+  let final := WOk (set_pos (put st p) (rf_pos st + zlen p)) (written + zlen p) in
   if rf_pos st + zlen p >? rf_max st then
     match fuel with
     | O => WFuel
     | S fuel' =>
-        let j := rf_max st - rf_pos st in
-        if j <? 0 then WPanic                     (* p[:j] with j < 0 *)
-        else
-          match firstn (S (Z.to_nat j)) p with    (* p[0..j]; len p > j here *)
-          | [] => WPanic
-          | x0 :: w =>
-              let rest := skipn (S (Z.to_nat j)) p in
-              match split_last_nl w with
+        match window_scan p (rf_max st - rf_pos st) with
+        | SOutOfRange => WPanic
+        | SFound a rest =>
+            (* Write(p[:j]); rotate; skip the newline; p = p[j+1:] *)
+            write_loop fuel' clk (S i) (rotate (clk i) [NL] RSplit (put st a)) rest (written + zlen a + 1)
+        | SNone =>
+            if 0 <? rf_pos st then
+              (* continue in a fresh file, nothing is skipped *)
+              write_loop fuel' clk (S i) (rotate (clk i) [] RFresh st) p written
+            else
+              match split_first_nl p with
               | Some (a, b) =>
-                  (* p[k] = '\n', k = 1 + len a: Write(p[:k]); rotate; p = p[k+1:] *)
-                  write_loop fuel' clk (S i)
-                    (rotate (clk i) [NL] RSplit (put st (x0 :: a)))
-                    (b ++ rest) (written + zlen (x0 :: a) + 1)
-              | None =>
-                  (* j reached 0: Write(p[:0]); rotate; p = p[1:] *)
-                  write_loop fuel' clk (S i)
-                    (rotate (clk i) [x0] RDrop st)
-                    (w ++ rest) (written + 1)
+                  write_loop fuel' clk (S i) (rotate (clk i) [NL] RLong (put st a)) b (written + zlen a + 1)
+              | None => final                     (* break: no newline at all *)
               end
-          end
+        end
     end
-  else WOk (set_pos (put st p) (rf_pos st + zlen p)) (written + zlen p).
+  else final.
 
 (* Write(p): Stat(path) failed => reopen; then the loop *)
 Definition rf_write (clk : nat -> N) (st : rf) (p : bytes) : wres :=
   let st0 := if rf_exists st then st else reopen st in
-  write_loop (S (length p)) clk 0 st0 p 0.
+  write_loop (S (S (2 * length p))) clk 0 st0 p 0.
 
 (* OpenRotateFile(path, mode, max) on whatever is at path: create if missing, seek to the
    end, rotate at once when offset >= max *)
@@ -135,12 +180,14 @@ Inductive op :=
 
 Definition ext_remove (st : rf) : rf :=
   if rf_exists st then
-    mkRF (rf_max st) (rf_pos st) false [] (rf_rot st) (rf_hist st) (rf_moved st) (rf_gone st ++ [rf_cur st])
+    mkRF (rf_max st) (rf_pos st) false [] (rf_rot st)
+         (rf_hist st ++ [mkH 0 0 (rf_cur st) [] RGone]) (rf_moved st) (rf_gone st ++ [rf_cur st])
   else st.
 
 Definition ext_move (st : rf) : rf :=
   if rf_exists st then
-    mkRF (rf_max st) (rf_pos st) false [] (rf_rot st) (rf_hist st) (rf_moved st ++ [rf_cur st]) (rf_gone st)
+    mkRF (rf_max st) (rf_pos st) false [] (rf_rot st)
+         (rf_hist st ++ [mkH 0 0 (rf_cur st) [] RMoved]) (rf_moved st ++ [rf_cur st]) (rf_gone st)
   else st.
 
 (* result of a history: final state and the values Write returned *)
@@ -182,23 +229,22 @@ Fixpoint written_of (ops : list op) : bytes :=
 Definition no_ext (ops : list op) : bool :=
   forallb (fun o => match o with ORemove | OMove => false | _ => true end) ops.
 
-(* the bytes on disk, rotated files in order of rotation, with what each rotation skipped *)
+(* the bytes that ever were at <path>, oldest file first, with what each rotation skipped *)
 Definition hist_stream (h : list hent) : bytes :=
   concat (map (fun e => h_content e ++ h_skipped e) h).
 
-Definition hist_files (h : list hent) : list (N * bytes) :=
-  map (fun e => (h_sec e, h_content e)) h.
+Definition is_rot (e : hent) : bool :=
+  match h_kind e with RMoved | RGone => false | _ => true end.
+Definition is_moved (e : hent) : bool := match h_kind e with RMoved => true | _ => false end.
+Definition is_gone (e : hent) : bool := match h_kind e with RGone => true | _ => false end.
 
-(* finding classes, on the ghost history *)
-Definition is_drop (e : hent) : bool := match h_kind e with RDrop => true | _ => false end.
-Definition has_drop (h : list hent) : bool := existsb is_drop h.
+Definition hist_files (h : list hent) : list (rname * bytes) :=
+  map (fun e => ((h_sec e, h_k e), h_content e)) h.
 
-Fixpoint nodup_b (l : list N) : bool :=
-  match l with
-  | [] => true
-  | x :: r => negb (existsb (N.eqb x) r) && nodup_b r
-  end.
-Definition secs_distinct (h : list hent) : bool := nodup_b (map h_sec h).
+(* input classes in which the code used to fail (kept to name a regression) *)
+Definition is_nowin (e : hent) : bool := match h_kind e with RFresh | RLong => true | _ => false end.
+Definition has_nowin (h : list hent) : bool := existsb is_nowin h.      (* a rotation without newline in its window *)
+Definition has_samesec (h : list hent) : bool := existsb (fun e => negb (h_k e =? 0)%N) h.  (* two rotations in one second *)
 
 (* a batch as file.go produces it: newline-terminated, non-empty lines without inner newline *)
 Definition line_ok (l : bytes) : bool :=
